@@ -182,3 +182,42 @@ package linker
 //@   loop 3 invariant !old(inDom(resolvedExports, "default")) ==> !inDom(resolvedExports, "default")
 //@   loop 3 invariant forall a string :: !old(inDom(resolvedExports, a)) && inDom(resolvedExports, a) ==> notShadowed(c, sourceIndexStack, a)
 //@   loop 3 invariant alias != "default" && (forall k int :: 0 <= k && k <= rangeindex ==> !hasNamedExport(c, sourceIndexStack[k], alias))
+
+// ----------------------------------------------------------------------------------------------
+// C10: entry-point reachability for code splitting. "Equal sets share a chunk": file f carries bit e iff
+// entry point e reaches f. Per activation of the marking traversal (mutually with helpers.BitSet's
+// contracts): only bit `entryPointBit` is ever touched and it is only ever SET (so the bits of other entry
+// points, and of this one on other files, are never lost); a live file ends up marked. (The closure of the marking under imports and part dependencies was attempted and not claimed: the address-taken
+// loop variable `record` defeats the engine's private-cell model and the nested-loop invariant over part
+// dependencies did not discharge within the time limit.)
+// Data-structure preconditions (established by graph.CloneLinkerGraph, unchecked here): every file's bit set
+// has room for the bit, and different files have different bit-set arrays.
+//@ import helpers "github.com/evanw/esbuild/internal/helpers"
+//@ spec func hasEntryBit(c *linkerContext, s uint32, b uint) bool = bitOf(c.graph.Files[s].EntryBits, b)
+//@ spec func bitsFit(c *linkerContext, b uint) bool = forall s uint32 :: b/8 < uint(len(c.graph.Files[s].EntryBits.entries))
+//@ spec func distinctBitSets(c *linkerContext) bool =
+//@     forall s uint32, t uint32 :: s != t ==> !sameArray(c.graph.Files[s].EntryBits.entries, c.graph.Files[t].EntryBits.entries)
+
+
+//@ func (*linkerContext).markFileReachableForCodeSplitting
+//@   arith int
+//@   prop C10
+//@   opt transparent bitsFit distinctBitSets
+//@   opt opaque bitOf
+//@   requires c != nil && bitsFit(c, entryPointBit) && distinctBitSets(c)
+//@   ensures marked: c.graph.Files[sourceIndex].IsLive ==> hasEntryBit(c, sourceIndex, entryPointBit)
+//@   ensures never-cleared: forall s uint32 :: old(hasEntryBit(c, s, entryPointBit)) ==> hasEntryBit(c, s, entryPointBit)
+//@   ensures only-this-bit: forall s uint32, b uint :: b != entryPointBit && b/8 < uint(len(c.graph.Files[s].EntryBits.entries)) ==>
+//@       hasEntryBit(c, s, b) == old(hasEntryBit(c, s, b))
+//@   loop 0 invariant hasEntryBit(c, sourceIndex, entryPointBit)
+//@   loop 0 invariant forall s uint32 :: old(hasEntryBit(c, s, entryPointBit)) ==> hasEntryBit(c, s, entryPointBit)
+//@   loop 0 invariant forall s uint32, b uint :: b != entryPointBit && b/8 < uint(len(c.graph.Files[s].EntryBits.entries)) ==> hasEntryBit(c, s, b) == old(hasEntryBit(c, s, b))
+//@   loop 1 invariant hasEntryBit(c, sourceIndex, entryPointBit)
+//@   loop 1 invariant forall s uint32 :: old(hasEntryBit(c, s, entryPointBit)) ==> hasEntryBit(c, s, entryPointBit)
+//@   loop 1 invariant forall s uint32, b uint :: b != entryPointBit && b/8 < uint(len(c.graph.Files[s].EntryBits.entries)) ==> hasEntryBit(c, s, b) == old(hasEntryBit(c, s, b))
+//@   loop 2 invariant hasEntryBit(c, sourceIndex, entryPointBit)
+//@   loop 2 invariant forall s uint32 :: old(hasEntryBit(c, s, entryPointBit)) ==> hasEntryBit(c, s, entryPointBit)
+//@   loop 2 invariant forall s uint32, b uint :: b != entryPointBit && b/8 < uint(len(c.graph.Files[s].EntryBits.entries)) ==> hasEntryBit(c, s, b) == old(hasEntryBit(c, s, b))
+//@   loop 3 invariant hasEntryBit(c, sourceIndex, entryPointBit)
+//@   loop 3 invariant forall s uint32 :: old(hasEntryBit(c, s, entryPointBit)) ==> hasEntryBit(c, s, entryPointBit)
+//@   loop 3 invariant forall s uint32, b uint :: b != entryPointBit && b/8 < uint(len(c.graph.Files[s].EntryBits.entries)) ==> hasEntryBit(c, s, b) == old(hasEntryBit(c, s, b))
